@@ -266,7 +266,8 @@ class DataPacketReceiver(Elaboratable):
                     with m.If(data_bytes_remaining > 4):
                         m.d.ss += data_bytes_remaining.eq(data_bytes_remaining - 4)
 
-                    with m.Else():
+                    # Otherwise, move on to checking the CRC -- unless we've just bailed out above.
+                    with m.Elif((sink.ctrl & source.valid) == 0):
                         m.next = "CHECK_CRC32"
 
 
